@@ -7,10 +7,11 @@
    the next access.  The reserved sizes, TOTAL_RESERVED and MIN_BUDGET_FLOOR come from
    Gen/BudgetConsts.v (regenerated from src/config/constants.rs on every run).
 
-   [lk] selects the variant: [false] = the code as it is (lock-free: check against a snapshot
-   of the five counters, then CAS on the pool counter only); [true] = the proposed repair
-   fixes/C39-allocate-under-lock.diff (the whole body of allocate runs under one mutex,
-   release stays lock-free).
+   [lk] selects the variant: [true] = the code as it is since /repo commit 0306f36 (the whole
+   body of allocate runs under the mutex alloc_lock, hook site 99 in front of it; release stays
+   lock-free); [false] = the lock-free code before that commit (check against a snapshot of
+   the five counters, then CAS on the pool counter only), kept to document why the lock is
+   needed (findings F-C39-1 / F-C39-2).
 
    Integer semantics: usize = u64; `+` panics on overflow (the harness profile has overflow
    checks on), saturating_sub saturates.  A panic ends the thread (EvPanic), the parking_lot
@@ -83,7 +84,7 @@ Inductive event :=
 Inductive pc :=
 | PStart                                   (* thread function not entered yet *)
 | PIdle                                    (* between two calls *)
-| ALock (p : pool) (n : Z)                 (* repaired variant: about to lock the mutex (site 99) *)
+| ALock (p : pool) (n : Z)                 (* about to lock the mutex alloc_lock (site 99); lk = true only *)
 | ALoadPool (p : pool) (n : Z)             (* loop head: about to load the pool counter *)
 | ATot (p : pool) (n cur : Z) (k : nat) (snap : counters)   (* total_used(): about to load counter k; k = 0 is site 100 *)
 | ALim (p : pool) (n cur : Z) (snap : counters)             (* about to load total_limit *)
@@ -215,7 +216,7 @@ Definition finished (th : thr) : bool :=
   match tpc th, prog th with PIdle, [] => true | _, _ => false end.
 Definition site_code (th : thr) : Z :=
   match tpc th with
-  | ALock _ _ => 99          (* repaired variant only: parked in front of the mutex *)
+  | ALock _ _ => 99          (* parked in front of the mutex *)
   | ATot _ _ _ O _ => 100
   | AChk _ _ _ _ _ => 101
   | ACas _ _ _ _ => 102
